@@ -395,6 +395,10 @@ RULES = {
     # R39: restart_number's byte-offset operations -> shims over the UTF-8 model: `name.find(".restart-")` -> `name.vfind_str(..)`,
     # `name.get((index + 9)..(index + 13))` -> `name.vget_range(index + 9, index + 13)`, `.parse::<usize>()` -> `.vparse_usize()`
     "R39": [("name.find($C)", "name.vfind_str($C)"), (".parse::<usize>()", ".vparse_usize()")],
+    # R40 (computed): Display for LogSpecification: `std::fmt::Formatter<'_>` -> the shim `VFormatter` (the text written so far) and the three
+    # shapes of `write!(f, ..)` used there -> shim methods: `write!(f, "{}", e)` -> `f.vwrite(e.as_str())`, `write!(f, "<literal>")` ->
+    # `f.vwrite("<literal>")`, `write!(f, "{name} = {}", e)` -> `f.vwrite3(name, " = ", e.as_str())`
+    "R40": [("std::fmt::Formatter<'_>", "VFormatter")],
     # R28 (computed): byte-offset string operations -> shims over the UTF-8 model of the unit (`byte_len` = sum of the characters' widths):
     # `s.find(c)` -> `s.vfind(c)`, `&s[..end]` -> `s.vslice_to(end)` (precondition: `end` is a character boundary), `&cow[..]` -> `vfull(&cow)`
     "R28": [],
@@ -500,6 +504,30 @@ def apply_rule(sf, a, b, rule, edits):
                 edits.replace(tail[0], tail[3] + 1, [Piece("")])
                 hits += 1
         return hits
+    if rule == "R40":
+        T = lambda q: toks[sigidx[q]]
+        for p in range(len(sigidx) - 5):
+            if T(p).text == "write" and T(p + 1).text == "!" and T(p + 2).text == "(" and T(p + 3).text == "f" and T(p + 4).text == "," and T(p + 5).kind == "str":
+                close = sf.br[sigidx[p + 2]]
+                lit = T(p + 5).text
+                q = p + 6
+                if sigidx[q] == close:
+                    if "{" in lit:
+                        raise ExtractError("unsupported: write! literal with placeholders and no argument under R40")
+                    rep = "f.vwrite(%s)" % lit
+                else:
+                    if T(q).text != ",":
+                        raise ExtractError("unsupported: write! shape under R40")
+                    arg = sf.text[T(q + 1).start:toks[close - 1].end if toks[close - 1].kind not in TRIVIA else toks[sf.prev_sig(close)].end] if hasattr(sf, "prev_sig") else sf.text[T(q + 1).start:toks[close].start].rstrip()
+                    if lit == '"{}"':
+                        rep = "f.vwrite((%s).as_str())" % arg
+                    elif lit == '"{name} = {}"':
+                        rep = 'f.vwrite3(name, " = ", (%s).as_str())' % arg
+                    else:
+                        raise ExtractError("unsupported: write! format %s under R40" % lit)
+                edits.replace(sigidx[p], close + 1, [Piece(rep, sf, T(p).start)])
+                hits += 1
+        # the literal pattern (the Formatter type) follows
     if rule == "R39":
         # `.get((x + n)..(x + m))` -> `.vget_range(x + n, x + m)` (x an identifier, n / m number literals)
         T = lambda q: toks[sigidx[q]]
